@@ -9,8 +9,9 @@ import (
 
 func TestMain(m *testing.M) { vkit.Main(m) }
 
-func TestProp_Mem(t *testing.T)  { PartMem.Run(t) }
-func TestProp_Diff(t *testing.T) { PartDiff.Run(t) }
+func TestProp_Mem(t *testing.T)    { PartMem.Run(t) }
+func TestProp_MemBig(t *testing.T) { PartMemBig.Run(t) }
+func TestProp_Diff(t *testing.T)   { PartDiff.Run(t) }
 
 // TestEnum_MemSmall: every history of at most three steps (see SmallCases).
 func TestEnum_MemSmall(t *testing.T) { PartMemSmall.RunCases(t, SmallCases(), true) }
@@ -19,15 +20,18 @@ func TestEnum_MemSmall(t *testing.T) { PartMemSmall.RunCases(t, SmallCases(), tr
 // only from there); in a plain binary they still run, without the detector.
 func TestRace_OneShot(t *testing.T) { PartOneShot.Run(t) }
 func TestRace_Stress(t *testing.T)  { PartStress.Run(t) }
+func TestRace_MNE(t *testing.T)     { PartMNE.Run(t) }
 
 func TestReplay(t *testing.T) {
 	times := 1
 	PartMem.Replay(t, times)
+	PartMemBig.Replay(t, times)
 	PartMemSmall.Replay(t, times)
 	PartDiff.Replay(t, times)
 	// schedule-dependent parts: re-run the program many times
 	if os.Getenv("VERIF_REPLAY") != "" {
 		PartOneShot.Replay(t, 2000)
 		PartStress.Replay(t, 2000)
+		PartMNE.Replay(t, 2000)
 	}
 }
